@@ -275,6 +275,17 @@ struct Exec {
 					real_sizes<DD>(a, n);
 					if(m.count() == 0) {
 						if(a.num_elements() != 0 || !a.is_empty() || a.size() != 0) fail("I4-extents", who + ": model is empty but the array reports num_elements()=" + std::to_string(a.num_elements()) + " size()=" + std::to_string(a.size()));
+						else if(m.exact_empty) {  // an empty shape with leading extent 0 is reported as requested, and copies keep it
+							bool same = true;
+							for(int k = 0; k < DD; ++k) same &= n[k] == m.n[k];
+							if(!same) {
+								std::string s = who + ": empty with extents (";
+								for(int k = 0; k < DD; ++k) s += (k ? "," : "") + std::to_string(n[k]);
+								s += ") but the model has (";
+								for(int k = 0; k < DD; ++k) s += (k ? "," : "") + std::to_string(m.n[k]);
+								fail("I4-extents", s + ")");
+							}
+						}
 					} else {
 						bool same = true;
 						for(int k = 0; k < DD; ++k) same &= n[k] == m.n[k];
